@@ -8,7 +8,7 @@ from ..common import Result
 PID = 'C03'
 LEVEL = 'exploration'
 RULE = ('bounded-exhaustive operation sequences (quick: all of length <= 2 and every second one of length 3, alternating with the '
-        'seed; thorough: all of length <= 4) over a 21-op alphabet from 5 '
+        'seed; thorough: all of length <= 4) over a 22-op alphabet from 5 '
         'start shapes with the dtype/byte order rotating through all 26 combinations, plus long random histories '
         '(30-200 steps, 29 op kinds); after every step: live handle, fresh handle and raw files vs NumPy model, '
         'prefix bytes, rejected calls leave state unchanged. Non-trivial = at least one successful state-changing '
